@@ -126,7 +126,9 @@ def unit_generated(st, enz, tier):
                         continue
                     re_ = M(gen.crec(rep, "rep"))
                     if not re_.is_valid() or (str(re_.overhang_start()).upper(), str(re_.overhang_end()).upper()) != (base["ovs"][j], base["ovs"][j + 1]):
-                        raise HarnessError("replacement is not a same-overhang module: {}".format(scn))
+                        st.filtered += 1
+                        st.extra["replacement-not-typed-as-same-overhang-module"] += 1
+                        continue
                     ms = [M(gen.crec(m, "m%d" % i)) for i, m in enumerate(mods)]
                     ms[j] = re_
                     o2 = asm.run_assemble(V(gen.crec(vec, "v")), ms)
